@@ -172,6 +172,11 @@ func runC07(c *Ctx) {
 		if r.Chance(1, 60) {
 			n = 200 + r.Intn(2000)
 		}
+		if i%4000 == 11 {
+			// beyond the sizes of everyday strings: outputs around 4 KiB, 64 KiB and 128 KiB (chunked scanners, 16-bit offsets)
+			n = []int{2048, 4096, 30000, 32768, 65536, 70000}[(i/4000)%6] + r.Intn(5)
+			w.Count("very_long_strings", 1)
+		}
 		var sb strings.Builder
 		wf := r.Bool() // half of the samples are made well-formed by construction
 		open := false
